@@ -22,6 +22,7 @@ static _Atomic long tokens;            // enters that have returned and are not 
 static _Atomic int active_others;      // threads other than the closer still running their script
 static _Atomic long progress;          // bumped after every completed API call / callout
 static _Atomic int async_pending, notif_registered;
+static _Atomic long adds_recorded, leaves_expected;   // recorded atomic adds on dg_state / leaves performed (API + work items)
 static _Atomic int notif_runs[MAXN];
 typedef struct { int idx, nops; uint64_t rng; volatile int cur_op; volatile int done; } targ_t;
 static targ_t ta[MAXT]; static pthread_t th[MAXT]; static int nthreads;
@@ -52,12 +53,13 @@ static int do_leave(void) {
 	long t = atomic_load(&tokens);
 	while (t > 0 && !atomic_compare_exchange_weak(&tokens, &t, t - 1)) { }
 	if (t <= 0) return 0;
+	atomic_fetch_add(&leaves_expected, 1);
 	dv_user(DVU_CALL, cur_round, OP_LEAVE, 0); dispatch_group_leave(g); dv_user(DVU_RET, cur_round, 0, 0);
 	return 1;
 }
 static void do_async(uint64_t *r) {
 	static _Atomic long wid; long id = atomic_fetch_add(&wid, 1); (void)r;
-	atomic_fetch_add(&async_pending, 1);
+	atomic_fetch_add(&async_pending, 1); atomic_fetch_add(&leaves_expected, 1);
 	dv_user(DVU_CALL, cur_round, OP_ASYNC, (unsigned long long)id);
 	dispatch_group_async_f(g, wq, (void *)id, work_fn);
 	dv_user(DVU_RET, cur_round, 0, 0);
@@ -131,6 +133,14 @@ static void *thr(void *a) {
 	return NULL;
 }
 static void on_sig(int s) { (void)s; }
+// the recorder's callback, plus a count of the leaves whose atomic add on dg_state HAS BEEN RECORDED: a worker thread can be
+// preempted between an operation and the callback that records it, so the end of a round waits for the records, not for the
+// effects (see the barrier in main)
+static void c07_cb(const volatile void *addr, unsigned size, int kind, int order, unsigned long long a, unsigned long long b,
+		int ok, const char *file, int line) {
+	dv_cb(addr, size, kind, order, a, b, ok, file, line);
+	if (kind == DV_ADD && g && addr == (const volatile void *)&g->dg_state) atomic_fetch_add(&adds_recorded, 1);
+}
 // dump like dv_dump, but a run of loads of NULL from dg_notify_head by one thread at one site (the spin of
 // os_mpsc_get_head / _dispatch_wait_for_enqueuer) is written once: the model accepts any number of them
 static void c07_dump(FILE *f) {
@@ -161,6 +171,7 @@ int main(int argc, char **argv) {
 	struct sigaction sa; memset(&sa, 0, sizeof sa); sa.sa_handler = on_sig; sigaction(SIGUSR1, &sa, NULL); // no SA_RESTART
 	wq = dispatch_get_global_queue(0, 0);
 	dv_install(seed, permille);
+	_dispatch_verif_cb = c07_cb;
 	uint64_t r = seed * 6364136223846793005ull + 1442695040888963407ull;
 	for (int i = 0; i < nrounds; i++) {
 		r = r * 6364136223846793005ull + 1442695040888963407ull;
@@ -172,6 +183,8 @@ int main(int argc, char **argv) {
 		dv_track(&g->dg_state, 24, i);
 		dv_track(&((dispatch_lane_t)nq)->dq_items_tail, sizeof(void *), 100000 + i);
 		atomic_store(&tokens, 0); atomic_store(&notif_registered, 0); atomic_store(&async_pending, 0);
+		atomic_store(&adds_recorded, 0); atomic_store(&leaves_expected, 0);
+		int base_refs = *(volatile int *)&g->do_ref_cnt;
 		for (int k = 0; k < MAXN; k++) atomic_store(&notif_runs[k], 0);
 		atomic_store(&active_others, nthreads - 1);
 		printf("R %d %d %d\n", i, cur_kind, nthreads);
@@ -189,18 +202,38 @@ int main(int argc, char **argv) {
 			// signals only early in the round: an EINTR re-arms the futex wait, which would rescue a waiter left behind
 			if (j % 3 == 0 && j < (cur_kind == 1 ? 6 : 30)) { int v = (int)((r >> (j % 40)) % (unsigned)nthreads); if (!ta[v].done) pthread_kill(th[v], SIGUSR1); }
 			long p = atomic_load(&progress);
-			if (p != last) { last = p; idle_ms = 0; } else if (++idle_ms > 4000) stuck_exit("no-progress-4s");
+			if (p != last) { last = p; idle_ms = 0; } else if (++idle_ms > 10000) stuck_exit("no-progress-10s");
 		}
 		for (int k = 0; k < nthreads; k++) pthread_join(th[k], NULL);
-		// quiescence: every group_async item has run and left; then every registered notification must have run once
-		for (int w = 0; atomic_load(&async_pending) > 0 || (uint32_t)(*(volatile uint64_t *)&g->dg_state) != 0; w++) {
-			usleep(1000); if (w > 4000) stuck_exit("async-or-count-not-drained");
-		}
+		// quiescence: every group_async item has run and left; then every registered notification must have run once.
+		// All waits are bounded by LACK OF PROGRESS (10 s without any change), never by elapsed time: the machine may be loaded
+		{ long lastp = -1; int idle = 0;
+		  while (atomic_load(&async_pending) > 0 || (uint32_t)(*(volatile uint64_t *)&g->dg_state) != 0) {
+			usleep(1000);
+			long p = atomic_load(&progress) + (long)(uint32_t)(*(volatile uint64_t *)&g->dg_state);
+			if (p != lastp) { lastp = p; idle = 0; } else if (++idle > 10000) stuck_exit("async-or-count-not-drained");
+		  } }
 		int nreg = atomic_load(&notif_registered);
-		for (int w = 0; w < 3000; w++) {
+		{ long lastp = -1; int idle = 0;
+		  for (;;) {
 			int all = 1; for (int k = 0; k < nreg; k++) if (atomic_load(&notif_runs[k]) < 1) all = 0;
 			if (all) break;
 			usleep(1000);
+			long p = atomic_load(&progress);
+			if (p != lastp) { lastp = p; idle = 0; } else if (++idle > 10000) break;      // reported as UNFIRED below
+		  } }
+		// barrier for the RECORD: every leave's atomic add has been recorded (count of recorded adds = leaves performed) and
+		// every _dispatch_group_wake has finished (its last step gives back the references it holds: the group's internal
+		// reference count is back to what it was at creation), so no thread is still inside a call on this group and no
+		// operation is still waiting for its callback
+		{ long lastp = -1; int idle = 0, complete = 1;
+		  while (atomic_load(&adds_recorded) != atomic_load(&leaves_expected) || *(volatile int *)&g->do_ref_cnt != base_refs) {
+			usleep(500);
+			long p = atomic_load(&adds_recorded) * 64 + *(volatile int *)&g->do_ref_cnt + (long)atomic_load(&dv_seq);
+			if (p != lastp) { lastp = p; idle = 0; } else if (++idle > 20000) { complete = 0; break; }
+		  }
+		  if (!complete) printf("INCOMPLETE %d adds=%ld/%ld refs=%d/%d\n", i, atomic_load(&adds_recorded), atomic_load(&leaves_expected),
+				*(volatile int *)&g->do_ref_cnt, base_refs);
 		}
 		usleep(300);
 		for (int k = 0; k < nreg; k++) {
